@@ -13,12 +13,12 @@ const pkgXEH = pkgEH + "/xexporterhelper"
 
 func init() {
 	register(&Property{
-		ID:  "C04",
-		Run: runC04,
-		Explain: "Static structural necessary conditions of exporter-side batching: (R1) partial-copy completeness – every fresh pdata container created while splitting (resource/scope level, Metric, Sum, Histogram, …; the identity-attribute list is computed from the type's API) either receives a whole source or has every identity attribute copied from its source, followed through helpers and returned values; (R2) split-loop progress – each `for size > max` split loop contains a progress guard (a branch on an empty extraction that leaves the loop or falls back to extracting one indivisible item), otherwise a single item larger than the limit makes it spin forever; (R3) cache pairing – every function that moves payload into or out of a request updates that request's cached size in the same function; (R4) merge moves the whole top-level resource slice of the source into the destination's; (R5) completion fan-in – the ref-counted and multi done objects forward/aggregate every outcome (shared with C03.R6).",
-		NotDecided: "Multiset conservation and the byte/item bound as numbers (needs the protobuf size arithmetic); exactly-once firing of completion callbacks across refCountDone/multiDone as a count over runtime list lengths; the batcher's interleaving of flushes.",
+		ID:         "C04",
+		Run:        runC04,
+		Explain:    "Static structural necessary conditions of exporter-side batching: (R1) partial-copy completeness – every fresh pdata container created while splitting (resource/scope level, Metric, Sum, Histogram, …; the identity-attribute list is computed from the type's API) either receives a whole source or has every identity attribute copied from its source, followed through helpers and returned values; (R2) split-loop progress – each `for size > max` split loop contains a progress guard (a branch on an empty extraction that leaves the loop or falls back to extracting one indivisible item), otherwise a single item larger than the limit makes it spin forever; (R3) cache pairing – every function that moves payload into or out of a request updates that request's cached size in the same function; (R4) merge moves the whole top-level resource slice of the source into the destination's; (R5) completion fan-in – the ref-counted and multi done objects forward/aggregate every outcome (shared with C03.R6); (R6) the default batcher's pending-slot discipline, decided by a path-sensitive abstract interpretation of every method that stores to the slot (slot nil/non-nil, batch owed to flush, nilness of saved batches, length intervals of the MergeSplit result lists refined by the branch conditions): a pending batch is never overwritten, a batch taken out of the slot is flushed with its own callback list on every path, every result dropped from the list was put into the pending batch with the request's callback, all remaining results are flushed, the ref-count equals the number of results and the raw callback is not used after the split decision; (R7) the pending slot is accessed only under the batcher mutex.",
+		NotDecided: "Multiset conservation and the byte/item bound as numbers (needs the protobuf size arithmetic); the sizes themselves (whether a batch really is below min/max is arithmetic over protobuf sizes, e.g. seeded change C04-m2); exactly-once firing of callbacks is decided only in its structural form (ref-count = number of results, every result flushed or pending with the callback), not as a count over all interleavings of concurrent flushes; the partition/multi batcher above the default batcher is covered by R5/R7 only.",
 		Assumes:    []string{"pdata MoveTo/CopyTo/RemoveIf semantics (C07)"},
-		Technique:  "static analysis: API-derived attribute coverage with interprocedural value tracking (PCC), loop-structure classification, effect pairing",
+		Technique:  "static analysis: API-derived attribute coverage with interprocedural value tracking (PCC), loop-structure classification, effect pairing, path-sensitive typestate over SSA with length intervals, must-lockset",
 	})
 }
 
@@ -245,6 +245,7 @@ func runC04(c *Ctx) {
 			}
 		}
 	}
+	runC04Batcher(c)
 	// R5 shared with C03.R6
 	sub := NewCtx(p, "C03", c.Tier, c.Config)
 	runC03(sub)
